@@ -184,6 +184,16 @@ def run(prog, rep, tier, cfg):
     X.guard('K6b', 'Bytecode::new:mark-only-jumpdest', BN, sorted(set(setters)), m_rel('eq', [], ['K:JUMPDEST'], True), 'bytecode[i] == JUMPDEST')
     psh = X.find_conds(BN, m_rel('ge', [], ['K:PUSH1'], True)) and X.find_conds(BN, m_rel('le', [], ['K:PUSH32'], True))
     rep.need('K6b', 'Bytecode::new:skips-push-data', bool(psh), 'jump-destination analysis must test PUSH1 <= op <= PUSH32 to skip push data', X.loc(BN))
+    # push data is skipped by exactly its length: i += (op - PUSH1) + 2
+    skip = False
+    for b in BN.blocks:
+        for st in b['s']:
+            if st[0] == '=' and st[2][0] == 'bin' and norm_op(st[2][1]) == 'Add':
+                at = prog.slicer.rvalue(BN, st[2])
+                ops = expr_ops(prog, BN, st[2][2]) | expr_ops(prog, BN, st[2][3])
+                if has_atom(at, 'K:PUSH1') and ('V', 2) in ops and ('OP', 'Sub') in ops:
+                    skip = True
+    rep.need('K10', 'Bytecode::new:push-skip-length', skip, 'after PUSHn the scan advances by (op - PUSH1) + 2 bytes', X.loc(BN))
     X.const_is('K11', 'JUMPDEST', 0x5b, CR)
     X.const_is('K11', 'PUSH1', 0x60, CR)
     X.const_is('K11', 'PUSH32', 0x7f, CR)
